@@ -115,6 +115,16 @@ func c08Unit(c *RunCtx, unit int) {
 									}
 									targets = append(targets, t)
 								}
+								if fi == 1 && jsonMode && ui == 0 && si == 0 {
+									// this instance's very first refusal happens while the renderer is down (the API redirect
+									// cannot be rendered): not judged — but every later refusal of the same instance is what
+									// the configuration says, the instance keeps no memory of the incident
+									nb++
+									w.FaultOps = map[string]error{"render": errors.New("renderer down")}
+									w.DoOn(h, world.NewBrowser(nb), world.Req{Method: "GET", Path: "/p"})
+									w.FaultOps = nil
+									c.Stats.Count("instances-whose-first-refusal-failed-to-render")
+								}
 								for _, tgt := range targets {
 									nb++
 									b := world.NewBrowser(nb)
